@@ -564,7 +564,15 @@ class TagAttrDict(Dict[str, "str | HTML"]):
                 nm = self._normalize_attr_name(k)
 
                 if nm in attrz:
-                    val = attrz[nm] + " " + val
+                    prev = attrz[nm]
+                    # When a plain value is merged with an HTML() value, the result is
+                    # HTML() and is written verbatim, so the plain side must be escaped
+                    # here with the attribute rules (quotes and newlines included).
+                    if isinstance(val, HTML) and not isinstance(prev, HTML):
+                        prev = HTML(html_escape(prev, attr=True))
+                    elif isinstance(prev, HTML) and not isinstance(val, HTML):
+                        val = HTML(html_escape(val, attr=True))
+                    val = prev + " " + val
 
                 attrz[nm] = val
 
